@@ -131,11 +131,20 @@ impl<'arena> Diagnostics<'arena> {
         let (line, col, line_start, line_end) = self.line_col_from_span(src, diag.span.start);
         let header = self.render_header(diag.severity, diag.code, diag.message);
         let location = self.render_location(filename, line, col, color);
-        let src_line = self.expand_tabs(&src[line_start..line_end]);
+        // A very long line (a minified source is one line) is shown as a window around the
+        // span: every diagnostic would otherwise repeat the whole source, and the caret and
+        // label lines would be as long as the column they point at.
+        let (shown_start, shown_end) =
+            Self::clip_line(src, line_start, line_end, diag.span.start);
+        let lead = if shown_start > line_start { Self::CLIP_MARK.len() } else { 0 };
+        let src_line = self.shown_source(src, line_start, line_end, shown_start, shown_end);
         let gutter = self.render_gutter(line, color, gutter_width);
         let plain_gutter = self.render_plain_gutter(color, gutter_width);
-        let caret_count = src[diag.span.start..diag.span.end.min(line_end)].chars().count().max(1);
-        let caret_line = self.render_caret_line(col, caret_count, color, &plain_gutter);
+        let caret_start = diag.span.start.clamp(shown_start, shown_end);
+        let caret_end = diag.span.end.min(shown_end).max(caret_start);
+        let caret_count = src[caret_start..caret_end].chars().count().max(1);
+        let caret_col = Self::visual_col(&src[shown_start..caret_start]) + 1 + lead;
+        let caret_line = self.render_caret_line(caret_col, caret_count, color, &plain_gutter);
 
         // Separate same-line labels from cross-line labels
         let (same_line_labels, cross_line_labels): (Vec<_>, Vec<_>) =
@@ -147,11 +156,11 @@ impl<'arena> Diagnostics<'arena> {
         // Render same-line labels as underlines with dashes
         let mut label_lines = Vec::with_capacity_in(same_line_labels.len(), self.arena);
         for label in same_line_labels {
-            // Convert absolute span to column position relative to line start
-            let lbl_col = &src[line_start..label.span.start];
-            let lbl_col = Self::visual_col(lbl_col) + 1;
-            let dash_count = &src[label.span.start..label.span.end.min(line_end)];
-            let dash_count = Self::visual_col(dash_count).max(1);
+            // Convert absolute span to column position relative to the shown part of the line
+            let label_start = label.span.start.clamp(shown_start, shown_end);
+            let label_end = label.span.end.min(shown_end).max(label_start);
+            let lbl_col = Self::visual_col(&src[shown_start..label_start]) + 1 + lead;
+            let dash_count = Self::visual_col(&src[label_start..label_end]).max(1);
             label_lines.push(self.render_label_line(
                 lbl_col,
                 dash_count,
@@ -164,13 +173,26 @@ impl<'arena> Diagnostics<'arena> {
         // Handle cross-line labels by showing their complete source context
         let mut cross_line_displays = Vec::with_capacity_in(cross_line_labels.len(), self.arena);
         for label in cross_line_labels {
-            let (label_line, label_col, label_line_start, label_line_end) =
+            let (label_line, _, label_line_start, label_line_end) =
                 self.line_col_from_span(src, label.span.start);
-            let label_src_line = self.expand_tabs(&src[label_line_start..label_line_end]);
+            let (label_shown_start, label_shown_end) =
+                Self::clip_line(src, label_line_start, label_line_end, label.span.start);
+            let label_lead =
+                if label_shown_start > label_line_start { Self::CLIP_MARK.len() } else { 0 };
+            let label_src_line = self.shown_source(
+                src,
+                label_line_start,
+                label_line_end,
+                label_shown_start,
+                label_shown_end,
+            );
             let label_gutter = self.render_gutter(label_line, color, gutter_width);
             let line_display = format!("{label_gutter}{label_src_line}");
-            let dash_count = &src[label.span.start..label.span.end.min(label_line_end)];
-            let dash_count = Self::visual_col(dash_count).max(1);
+            let label_start = label.span.start.clamp(label_shown_start, label_shown_end);
+            let label_end = label.span.end.min(label_shown_end).max(label_start);
+            let label_col =
+                Self::visual_col(&src[label_shown_start..label_start]) + 1 + label_lead;
+            let dash_count = Self::visual_col(&src[label_start..label_end]).max(1);
             let label_underline =
                 self.render_label_line(label_col, dash_count, color, &label.message, &plain_gutter);
             cross_line_displays.push((line_display, label_underline));
@@ -343,6 +365,51 @@ impl<'arena> Diagnostics<'arena> {
     }
 
     const TAB_WIDTH: usize = 4;
+
+    // Longest part of one source line a diagnostic shows, and how much of it precedes the span.
+    const MAX_SHOWN_LINE: usize = 400;
+    const SHOWN_BEFORE_SPAN: usize = 80;
+    const CLIP_MARK: &'static str = "... ";
+
+    /// The part of the line `line_start..line_end` to show for a span starting at `focus`.
+    fn clip_line(src: &str, line_start: usize, line_end: usize, focus: usize) -> (usize, usize) {
+        if line_end - line_start <= Self::MAX_SHOWN_LINE {
+            return (line_start, line_end);
+        }
+        let mut shown_start =
+            focus.min(line_end).saturating_sub(Self::SHOWN_BEFORE_SPAN).max(line_start);
+        while !src.is_char_boundary(shown_start) {
+            shown_start -= 1;
+        }
+        let mut shown_end = (shown_start + Self::MAX_SHOWN_LINE).min(line_end);
+        while !src.is_char_boundary(shown_end) {
+            shown_end -= 1;
+        }
+        (shown_start, shown_end)
+    }
+
+    fn shown_source(
+        &self,
+        src: &str,
+        line_start: usize,
+        line_end: usize,
+        shown_start: usize,
+        shown_end: usize,
+    ) -> ArenaString<'arena> {
+        let shown = self.expand_tabs(&src[shown_start..shown_end]);
+        if shown_start == line_start && shown_end == line_end {
+            return shown;
+        }
+        let mut clipped = ArenaString::with_capacity_in(shown.len() + 8, self.arena);
+        if shown_start > line_start {
+            clipped.push_str(Self::CLIP_MARK);
+        }
+        clipped.push_str(&shown);
+        if shown_end < line_end {
+            clipped.push_str(" ...");
+        }
+        clipped
+    }
 
     fn expand_tabs(&self, text: &str) -> ArenaString<'arena> {
         let mut result = ArenaString::with_capacity_in(text.len() * 2, self.arena);
